@@ -60,17 +60,33 @@ def canon_exc(e: BaseException) -> List[Any]:
 
 class Case:
     """A set of root objects (descriptions + real objects), and a provider arrangement."""
-    def __init__(self, descs: List[Any], stores: List[List[int]]):
+    def __init__(self, descs: List[Any], stores: List[List[int]], churn: bool = False):
         self.descs = descs              # uid = index
         self.stores = stores            # store -> list of uids
+        self.churn = churn              # lists went through a content-neutral mutation history before being referenced
         self.objs: List[Dict[Tuple[int, ...], Any]] = []
         self.ident: Dict[int, Tuple[int, Tuple[int, ...]]] = {}
         for u, d in enumerate(descs):
             m: Dict[Tuple[int, ...], Any] = {}
             T.build(d, m)
+            if churn:
+                self._churn(m)
             self.objs.append(m)
             for p, o in m.items():
                 self.ident[id(o)] = (u, p)
+
+    @staticmethod
+    def _churn(m):
+        """A history that leaves every list as it was: take the first item out and put it back in place, then pop() the most
+        recently added item (that same one) and put it back again.  "Contained at any depth" holds after any history."""
+        from basyx.aas import model
+        for p in sorted(m):
+            o = m[p]
+            if isinstance(o, model.SubmodelElementList) and len(o.value) >= 2:
+                x = o.value.pop(0)
+                o.value.insert(0, x)
+                y = o.value.pop()
+                o.value.insert(0, y)
 
     def provider(self, stores=None):
         from basyx.aas import model
@@ -84,7 +100,7 @@ class Case:
         return ["node", u, list(p)]
 
     def json(self):
-        return {"descs": [strip_generated(d) for d in self.descs], "stores": self.stores}
+        return {"descs": [strip_generated(d) for d in self.descs], "stores": self.stores, "churn": self.churn}
 
 
 def strip_generated(d):
@@ -94,6 +110,13 @@ def strip_generated(d):
         for c in out[4]:
             c[2] = None
     return out
+
+
+class Rejected(Exception):
+    """The implementation refused to build a tree that the model regards as a legal one (every generated tree is)."""
+    def __init__(self, descs, stores, exc):
+        super().__init__(f"{type(exc).__name__}: {exc}")
+        self.case = {"descs": [strip_generated(d) for d in descs], "stores": stores}
 
 
 def gen_case(rng: random.Random, depth: int, width: int) -> Case:
@@ -112,7 +135,10 @@ def gen_case(rng: random.Random, depth: int, width: int) -> Case:
             stores[rng.choice(cands)].append(u)
     if rng.random() < 0.5:
         rng.shuffle(stores)
-    return Case(descs, stores)
+    try:
+        return Case(descs, stores, churn=rng.random() < 0.4)
+    except Exception as e:
+        raise Rejected(descs, stores, e)
 
 
 def expected_keys(desc, path) -> List[List[str]]:
@@ -484,8 +510,15 @@ def correspond(ctx: C.Ctx, cov: C.Coverage) -> List[C.Disagreement]:
     lines, impl, tags = static_lines(rng, b["values"])
     index: List[Any] = [("static", None)] * len(lines)
     cases: List[Case] = []
+    rejected: List[C.Disagreement] = []
     for ci in range(b["trees"]):
-        case = gen_case(rng, b["depth"], b["width"])
+        try:
+            case = gen_case(rng, b["depth"], b["width"])
+        except Rejected as e:
+            rejected.append(C.Disagreement("tree that the model accepts is rejected by the implementation", e.case, ["unit"], ["raise", str(e)[:200]]))
+            cov.hit("tree-rejected")
+            continue
+        ci = len(cases)
         cases.append(case)
         l, i, t = case_lines(rng, case, cov)
         lines += l; impl += i; tags += t
@@ -494,7 +527,7 @@ def correspond(ctx: C.Ctx, cov: C.Coverage) -> List[C.Disagreement]:
     cov.extra["trees"] = sum(len(c.descs) for c in cases)
     cov.extra["referables"] = sum(len(T.nodes_of(d)) for c in cases for d in c.descs)
     cov.extra["neutral_zones"] = NEUTRAL
-    cov.samples = [cases[0].json(), lines[len(lines) // 2]]
+    cov.samples = [cases[0].json() if cases else None, lines[len(lines) // 2]]
     out = C.run_model("C07", lines)
     if len(out) != len(impl):
         return [C.Disagreement("driver output length", None, len(out), len(impl))]
@@ -506,7 +539,7 @@ def correspond(ctx: C.Ctx, cov: C.Coverage) -> List[C.Disagreement]:
             dis.append(C.Disagreement(f"{tags[k]} line {lines[k]}", {"case": case_json, "line": strip_line(lines[k])}, m, i))
             if len(dis) >= 5:
                 break
-    return dis
+    return dis + rejected[:3]
 
 
 def strip_line(l):
@@ -566,7 +599,7 @@ def check_case(case_json, rng: Optional[random.Random] = None) -> Optional[C.Fai
     """The property, stated over the implementation: every referable of every identifiable the provider returns."""
     from basyx.aas import model
     rng = rng or random.Random(0)
-    case = Case(copy.deepcopy(case_json["descs"]), case_json["stores"])
+    case = Case(copy.deepcopy(case_json["descs"]), case_json["stores"], case_json.get("churn", False))
     prov = case.provider()
     cj = case.json()
     for u, d in enumerate(case.descs):
@@ -806,7 +839,10 @@ def oracle(ctx: C.Ctx, cov: C.Coverage) -> List[C.Failing]:
     out: List[C.Failing] = []
     sigs = set()
     for _ in range(b["trees"]):
-        case = gen_case(rng, b["depth"], b["width"])
+        try:
+            case = gen_case(rng, b["depth"], b["width"])
+        except Rejected:
+            continue                      # reported by the correspondence; the property itself speaks about built trees
         f = check_case(case.json(), random.Random(rng.random()))
         if f and f.sig not in sigs:
             sigs.add(f.sig)
@@ -844,7 +880,7 @@ def minimise(f: C.Failing) -> C.Failing:
             if len(cur["descs"]) <= 1:
                 break
             cand = {"descs": cur["descs"][:u] + cur["descs"][u + 1:],
-                    "stores": [[v - (v > u) for v in s if v != u] for s in cur["stores"]]}
+                    "stores": [[v - (v > u) for v in s if v != u] for s in cur["stores"]], "churn": cur.get("churn", False)}
             g = fails(cand)
             if g:
                 cur, best, changed = cand, g, True
@@ -935,7 +971,7 @@ def replay(case) -> Optional[C.Failing]:
             if f:
                 return f
         # directed: the recorded path / chain itself
-        c = Case(copy.deepcopy(case["case"]["descs"]), case["case"]["stores"])
+        c = Case(copy.deepcopy(case["case"]["descs"]), case["case"]["stores"], case["case"].get("churn", False))
         u = case.get("uid", 0)
         if "segs" in case:
             return judge_path(c, u, c.descs[u], c.objs[u][()], case["segs"], case)
